@@ -454,10 +454,14 @@ structure PState where
   next : Nat
 deriving Repr
 
-/-- which names the builder lists in `preserve_whitespace_tags` / `string_containers` -/
+/-- which names the builder lists in `preserve_whitespace_tags` / `string_containers`, and the push policy of
+    `pushTag`: bs4 pushes EVERY such tag on its side stack (`outermostOnly = false`, bs4/__init__.py:821-824). The
+    alternative "only the outermost whitespace-preserving tag matters" (`outermostOnly = true`) builds the same tree
+    but breaks the invariant `popTag`'s `==` relies on — kept in the model to show that the bound depends on it. -/
 structure Names where
   isPre : Nat → Bool
   isSc : Nat → Bool
+  outermostOnly : Bool := false
 
 /-- `tag == stack[-1]` in `popTag` (bs4/__init__.py:797-803): `Tag.__eq__` — same object: one frame; different name:
     one frame; otherwise it would recurse into the (still growing) contents: `deep` stands for whatever that costs -/
@@ -500,7 +504,8 @@ def popToTag (deep : Nat) (name : Nat) (s : PState) : PState × Nat :=
 /-- `pushTag` (bs4/__init__.py:809-824) -/
 def pushTag (nm : Names) (name : Nat) (s : PState) : PState :=
   let t : PTag := ⟨s.next, name⟩
-  ⟨t :: s.stack, if nm.isPre name then t :: s.pre else s.pre, if nm.isSc name then t :: s.sc else s.sc, s.next + 1⟩
+  ⟨t :: s.stack, if nm.isPre name && (!nm.outermostOnly || s.pre.isEmpty) then t :: s.pre else s.pre,
+   if nm.isSc name then t :: s.sc else s.sc, s.next + 1⟩
 
 /-- `endData` → `string_container` / `object_was_parsed` → `setup` / `_linkage_fixer` (a loop up the parents) -/
 def endDataDepth (s : PState) : Nat := call (call (call (max (loop0 s.stack) (call (loop0 s.stack)))))
